@@ -140,6 +140,7 @@ func genC01(g engine.G) *engine.Case {
 		sc.Gens = engine.GenGens(g, engine.Palette{Types: []int{0, 1, 2, 3, 4, 5}}, false)
 	}
 	sc.JoinTyped = g.Pct(10)
+	sc.RawConverters = g.Pct(15)
 	c := &engine.Case{Sc: sc, Reps: 2}
 	if g.Pct(20) {
 		c.Note = engine.Pick(g, []string{"wrap", "fromsig"})
